@@ -35,6 +35,7 @@ type Obligation struct {
 	prep     func()    // builds Alt (serialised: the generator's term factories are not concurrent)
 	prepOnce sync.Once
 	gensymEnd, skEnd int
+	fastFail bool   // the function already failed several obligations: short pipeline
 	prepAnte func() // builds the sub-obligations of Alt's antecedent groups (needed by the full skolem stage only)
 	anteOnce sync.Once
 	Ante   []*anteGroup // (of a variant) implications with quantified antecedents, each with the sub-goals that establish the antecedent
@@ -466,7 +467,7 @@ func discharge(ob *Obligation, tier string, timeoutS int) {
 	}
 	// stage 2b/2c: the skolemised variant with the consequents of established antecedents, ground first, then with
 	// the quantified hypotheses kept
-	if skolemStage(ob, res, base, tier, true) {
+	if !ob.fastFail && skolemStage(ob, res, base, tier, true) {
 		return
 	}
 	// race all
@@ -550,6 +551,23 @@ func discharge(ob *Obligation, tier string, timeoutS int) {
 // first the antecedent groups are established, then the ground query with their consequents, then the query with the
 // quantified hypotheses kept.
 var prepMu sync.Mutex
+
+var (
+	failMu    sync.Mutex
+	failCount = map[string]int{}
+)
+
+func funcFailures(f string) int {
+	failMu.Lock()
+	defer failMu.Unlock()
+	return failCount[f]
+}
+
+func noteFuncFailure(f string) {
+	failMu.Lock()
+	failCount[f]++
+	failMu.Unlock()
+}
 
 // groundOpts: for the quantifier-free queries (arrays, linear arithmetic with the div/mod of pad4 and of the big-endian
 // splits) z3's legacy arithmetic core decides in a fraction of a second what the default core does not finish.
@@ -760,7 +778,20 @@ func dischargeAll(obs []*Obligation, tier string, timeoutS, workers int) {
 			defer wg.Done()
 			for ob := range ch {
 				t0 := time.Now()
-				discharge(ob, tier, timeoutS)
+				// Once several obligations of a function have failed through every stage, the function does not meet
+				// its contract on this tree: the remaining ones get the short pipeline (they can only add further
+				// failures to a check that already fails; on a tree where everything is discharged this never triggers).
+				to := timeoutS
+				if tier == "quick" && funcFailures(ob.Func) >= 3 {
+					ob.fastFail = true
+					if to > 8 {
+						to = 8
+					}
+				}
+				discharge(ob, tier, to)
+				if s := ob.Result.Status; s != "unsat" && s != "trivial" {
+					noteFuncFailure(ob.Func)
+				}
 				if os.Getenv("STUNVC_TIMING") != "" {
 					if d := time.Since(t0).Seconds(); d > 3 {
 						fmt.Fprintf(os.Stderr, "timing: %.1fs %s [%s]\n", d, ob.Name, ob.Result.Detail)
